@@ -5,6 +5,7 @@
 //           (reading a chunk returns the stored levels).
 //  builder: flat schemas built through the builder API report the same counts, names, types and levels.
 #include "harness/common/pbt.hpp"
+#include "harness/common/consume.hpp"
 #include "harness/common/reading.hpp"
 #include "gen/files.hpp"
 
@@ -81,6 +82,22 @@ static Verdict runT(const T &t) {
       }
       PBT_CHECK(vd, got.values == cs.values, "leaf %zu values differ", k);
     }
+  // the batch reader types and sizes each column from the schema: for every non-repeated leaf its batches must hold the
+  // stored values (a leaf resolved to the wrong schema node shows as wrong values or as a sanitizer report)
+  {
+    cs::BatchCfg cfg; cfg.batch_size = 1 + (int)(lv.size() % 5); cfg.threads = 1;
+    cs::BatchRun run = cs::runBatches(op.r, cfg, false, 400);
+    if (run.created) {
+      for (size_t k = 0; k < lv.size(); k++) {
+        if (lv[k].max_rep > 0 || lv[k].max_def > 0) continue;   // required leaves: every row carries a value, no bitmap convention involved
+        std::vector<Bytes> want, gotv;
+        for (auto &rg : t.fs.row_groups) want.insert(want.end(), rg[k].values.begin(), rg[k].values.end());
+        for (auto &b : run.batches) if (k < b.cols.size()) gotv.insert(gotv.end(), b.cols[k].slots.begin(), b.cols[k].slots.end());
+        bool all_flat = true; for (auto &l : lv) if (l.max_rep > 0) all_flat = false;
+        if (all_flat && run.end_status == CARQUET_ERROR_END_OF_DATA) PBT_CHECK(vd, gotv == want, "batch reader: leaf %zu ('%s') delivers %zu values that differ from the %zu stored ones", k, lv[k].path.back().c_str(), gotv.size(), want.size());
+      }
+    }
+  }
   return vd;
 }
 
